@@ -1116,6 +1116,12 @@ def AllowedRun (typed : Bool) : St → List SeqOfOp → Prop
   | _, [] => True
   | s, op :: ops => Allowed typed s op = true ∧ AllowedRun typed (step typed s op).1 ops
 
+instance decAllowedRun (typed : Bool) : (s : St) → (ops : List SeqOfOp) → Decidable (AllowedRun typed s ops)
+  | _, [] => isTrue trivial
+  | s, op :: ops =>
+    have := decAllowedRun typed (step typed s op).1 ops
+    inferInstanceAs (Decidable (Allowed typed s op = true ∧ AllowedRun typed (step typed s op).1 ops))
+
 end ListSpec
 
 namespace SeqOf
